@@ -215,9 +215,16 @@ def closure_of(b, op):
     """(closure path, capture operands) if the operand is a closure aggregate built in this body."""
     if op[0] == "k":
         return None
-    for d in b.defs().get(op[1][0], []):
-        if d[0] == "stmt" and d[4][0] == "agg" and d[4][1].startswith("closure:"):
-            return d[4][1][8:], d[4][2]
+    l = op[1][0]
+    for _ in range(6):      # a closure bound to a name first is moved / copied into the call
+        ds = b.defs().get(l, [])
+        for d in ds:
+            if d[0] == "stmt" and d[4][0] == "agg" and d[4][1].startswith("closure:"):
+                return d[4][1][8:], d[4][2]
+        if len(ds) == 1 and ds[0][0] == "stmt" and ds[0][4][0] == "use" and ds[0][4][1][0] != "k" and not ds[0][4][1][1][1]:
+            l = ds[0][4][1][1][0]
+            continue
+        break
     return None
 
 
